@@ -51,7 +51,7 @@ class StringEncoder:
         assert len(s.shape) == 2
         assert s.shape[1] == self.n
         assert torch.min(s) >= 0, "Cannot encode negative values."
-        max_value = torch.max(s)
+        max_value = int(torch.max(s))
         assert max_value < 2**self.w, f"Width {self.w} is not sufficient to encode value {max_value}."
 
         encoded = torch.zeros((s.shape[0], self.encoded_length), dtype=torch.int64, device=s.device)
